@@ -140,10 +140,11 @@ class RecipeGen:
         """indices of subs callable from this scope (DAG unless recursion feature)"""
         out = []
         for j, s in enumerate(self.subs):
-            if s.get("handler_only"):
+            if s.get("handler_only") or s.get("late"):
+                # late-defined method subroutines may not exist yet when a caller is evaluated
                 continue
             if sc.in_sub is None:
-                ok = not s.get("late")
+                ok = True
             else:
                 i = self.cur_sub_index
                 if j < i:
